@@ -251,6 +251,17 @@ def case_setup(p):
         wire = tlv8.encode([(hap.T_STATE, b"\x06"), (hap.T_ENC, run.m5[hap.T_ENC])])
     elif f == "m6-omit":
         wire = tlv8.encode(acc.m6(omit=(arg,)))
+    elif f == "m6-omit-but-in-envelope":
+        # a required item is missing from the encrypted part and an item of that type travels OUTSIDE it, in the plaintext envelope (where
+        # anybody on the path can put it): a required item that is not under the PS-Msg06 seal is missing
+        which, val = arg
+        true = {hap.T_ID: run.ident.id, hap.T_PK: run.ident.pk, hap.T_SIG: None}[which]
+        items = acc.m6(omit=(which,))
+        if which == hap.T_SIG:
+            full = dict(tlv8.decode(C.open_(k["enc"], C.nonce_str(b"PS-Msg06"), dict(m6_honest_items)[hap.T_ENC])))
+            true = full[hap.T_SIG]
+        outside = true if val == "true" else {hap.T_ID: run.other.id, hap.T_PK: run.other.pk, hap.T_SIG: bytes(64)}[which]
+        wire = tlv8.encode(list(items) + [(which, outside)])
     elif f == "m6-sig-bitflip":
         wire = tlv8.encode(acc.m6(sub_override=lambda sub: [(t, _flip(v, arg) if t == hap.T_SIG else v) for t, v in sub]))
     elif f == "m6-pk-bitflip":
@@ -294,7 +305,7 @@ def case_setup(p):
     else:
         raise core.HarnessError(fault)
     verdict, presented = classify_m6(wire, acc, honest)
-    if f == "m6-state-alter":
+    if f in ("m6-state-alter", "m6-omit-but-in-envelope"):
         verdict = "forged"  # an altered message makes pairing fail
     if f == "m6-error-extra":
         verdict = "forged"  # the accessory flags an error: nothing may be returned, whatever else the reply carries
@@ -403,6 +414,7 @@ def run(ctx):
         fl += [("m6-trunc", n) for n in (range(0, m6len, 5) if quick else range(m6len))]
         fl += [("m6-wrong-key", None), ("m6-echo-m5", None), ("m6-no-enc", None)] + [("m6-wrong-nonce", n) for n in ("PS-Msg05", "PS-Msg04", "PV-Msg02")]
         fl += [("m6-omit", t) for t in (hap.T_ID, hap.T_PK, hap.T_SIG)]
+        fl += [("m6-omit-but-in-envelope", (t, v_)) for t in (hap.T_ID, hap.T_PK, hap.T_SIG) for v_ in ("true", "other")]
         fl += [("m6-sig-bitflip", b) for b in bitsel(512)]
         fl += [("m6-pk-bitflip", b) for b in bitsel(256)]
         fl += [("m6-id-bitflip", b) for b in bitsel(idlen * 8)]
